@@ -700,6 +700,6 @@ func (tr *Tr) nameTermInt(hint, term string) string {
 		return term
 	}
 	s := tr.freshSym(hint, false)
-	tr.sc.fact(sEq(s, term))
+	tr.sc.factLocal(sEq(s, term))
 	return s
 }
